@@ -229,7 +229,18 @@ func showLike(l string) bool {
 	return l == "write term" || l == "iptables-save" || l == "ip route show"
 }
 
-func benignKind(k string) bool { return k == "warntext" || k == "infotext" || k == "" }
+func benignKind(k string) bool {
+	return k == "warntext" || k == "infotext" || k == "warns_only" || k == "info_then_warn" || k == ""
+}
+
+// the commands of the session itself (ASA, IOS); every other line of a baseline transcript is a
+// command of the change script
+var sessionLines = map[string]bool{"secret": true, "yes": true, "enable": true, "": true, "sh pager": true,
+	"terminal pager 0": true, "sh term": true, "configure terminal": true, "terminal width 511": true, "end": true,
+	"sh ver": true, "show hostname": true, "write term": true, "write memory": true, "term len 0": true,
+	"term width 512": true, "sh run": true, "no logging console": true, "line vty 0 15": true,
+	"logging synchronous level all": true, "ip subnet-zero": true, "ip classless": true, "reload in 2": true,
+	"n": true, "reload cancel": true, "exit": true}
 
 // classify the command at the fault position for the signature of a finding
 func faultClass(backend string, lines []string, faultAt int, kind string, base plan, baseE plan) string {
@@ -585,11 +596,17 @@ func run(ctx *Ctx) *Result {
 					extra = []string{"commitmsg", "errsuccess"}
 				case s.Backend == "PAN-OS" && strings.Contains(l, "type=config") && !strings.Contains(l, "action=get"):
 					extra = []string{"errsuccess"}
+				case (s.Backend == "ASA" || s.Backend == "IOS") && !sessionLines[l]:
+					// a change command: every mixture of notices and error lines in one output
+					extra = []string{"warn_then_err", "info_then_err", "err_then_warn", "warns_then_err", "warns_only", "info_then_warn"}
 				case (s.Backend == "ASA" || s.Backend == "IOS") && (l == "write memory" || (l == "" && pos >= 2 && blOut[i].Lines[pos-2] == "write memory")):
 					extra = []string{"savefail", "savefail_ok"}
 				}
 				for _, k := range extra {
 					cases = append(cases, CaseIn{Scen: s, Tool: "doapprove", Mode: "approve", FaultPos: pos, FaultKind: k})
+					if !sessionLines[l] && !isHTTP(s.Backend) && !ctx.Thorough() {
+						continue // mixed-output kinds: via drc only in the thorough tier
+					}
 					cases = append(cases, CaseIn{Scen: s, Tool: "drc", Mode: "approve", FaultPos: pos, FaultKind: k})
 				}
 			}
